@@ -297,6 +297,7 @@ func (h *v6Host) NewStream(ctx context.Context, p peer.ID, pids ...protocol.ID) 
 			}
 			w.mu.Lock()
 			w.arrived = append(w.arrived, "dialfail")
+			w.arrivedBy[w.singleKey] = append(w.arrivedBy[w.singleKey], "dialfail")
 			w.mu.Unlock()
 			return nil, errors.New("verif host: dial refused")
 		}
@@ -330,6 +331,7 @@ type v6World struct {
 	log        []string
 	served     []string        // answers picked, in order of request arrival (an answer may never arrive)
 	arrived    []string        // answers that were actually played to the client (a hang never arrives)
+	arrivedBy  map[string][]string // ... per request key
 	honestRead map[string]bool // request key -> a complete honest response was read by the client
 	harnessErr string
 }
@@ -337,7 +339,7 @@ type v6World struct {
 func v6NewWorld(tab map[string]map[string][]byte) *v6World {
 	return &v6World{
 		t0: time.Now(), done: make(chan struct{}), tab: tab,
-		script: map[string][]string{}, attempts: map[string]int{}, honestRead: map[string]bool{},
+		script: map[string][]string{}, attempts: map[string]int{}, honestRead: map[string]bool{}, arrivedBy: map[string][]string{},
 	}
 }
 
@@ -420,6 +422,7 @@ func (w *v6World) endpoint(s *v6Stream) {
 	if ans != "hang" {
 		w.mu.Lock()
 		w.arrived = append(w.arrived, ans)
+		w.arrivedBy[key] = append(w.arrivedBy[key], ans)
 		w.mu.Unlock()
 	}
 	switch ans {
